@@ -782,7 +782,7 @@ class Check(PropertyCheck):
         # (b) unknown keys
         for fmt in FORMATS:
             for uk, uv in (('no-such-option', 'x'), ('projectname', 'y'), ('verbosity', '3'), ('sourcepath', 'z'), ('v', '1'),
-                           ('W', 'true')):
+                           ('q', '1')):
                 cases.append({'k': 'e2e_unknown', 'opt': 'projectname', 'key': 'project-name', 'fmt': fmt, 'style': 'plain',
                               'value': 'Known', 'more': [(uk, uv)], 'cli': ['--project-name=Known'], 'unknown': uk,
                               'override': None})
@@ -1032,10 +1032,24 @@ class Check(PropertyCheck):
             return 0 if ('ok' in r and r['ok'] == exp and r['warnings'] == expw) else 1
         if k in ('quote', 'pyspec', 'ini', 'toml', 'ns'):
             r = lib.run_impl_worker(WORKER, [case])[0]
+            exp = data.get('expected')
             print('case     :', json.dumps(case)[:1500])
             print('observed :', json.dumps(r)[:3000])
-            print('expected (model):', json.dumps(data.get('expected'))[:3000])
-            return 1
+            print('expected (model, as recorded):', json.dumps(exp)[:3000])
+            same = False
+            if k == 'quote' and isinstance(exp, dict):
+                same = all(r.get(a) == b for a, b in exp.items())
+            elif k == 'quote' and isinstance(exp, list):
+                same = (exp[0] == 0 and r['unq'] == [0, exp[1]]) or (exp[0] == 1 and r['unq'][0] == 1)
+            elif k in ('ini', 'toml') and isinstance(exp, dict):
+                same = ('ok' in exp and r['parse'].get('ok') == exp['ok']) or ('err' in exp and 'err' in r['parse'])
+            elif k == 'ns' and isinstance(exp, dict):
+                g = dict((r['runs'][0]['opts'] or {}))
+                g.pop('sourcepath', None)
+                g = dict((a, ('sentinel' if isinstance(b, list) and b[:1] == ['object'] else b)) for a, b in g.items())
+                same = g == exp
+            print('the implementation now %s the recorded model output' % ('matches' if same else 'differs from'))
+            return 0 if same else 1
         print('unknown replay case', case)
         return 2
 
